@@ -573,7 +573,13 @@ impl ActionProvider for ReferenceInlineSection {
                         let markdown = context
                             .collect(&key)
                             .remove_node(target_id)
-                            .append_pre_header(section_id, context.collect(&inline_key))
+                            .append_pre_header(
+                                section_id,
+                                // links of the inlined text now live in this note's directory
+                                context
+                                    .collect(&inline_key)
+                                    .relocate(&inline_key.parent(), &key.parent()),
+                            )
                             .iter()
                             .to_markdown(&key.parent(), context.markdown_options());
 
@@ -624,7 +630,12 @@ impl ActionProvider for ReferenceInlineQuote {
                 let quote = Tree {
                     id: None,
                     node: Node::Quote(),
-                    children: context.collect(&inline_key).children.clone(),
+                    // links of the inlined text now live in this note's directory
+                    children: context
+                        .collect(&inline_key)
+                        .relocate(&inline_key.parent(), &key.parent())
+                        .children
+                        .clone(),
                 };
 
                 let markdown = context
